@@ -71,9 +71,11 @@ def run_bmc_property(R, pid, sizes, n1, g1, alphabet, depth, asserts, classify, 
     sc = build_prefix(sizes, n1, g1, commit=commit)
     sc.record('prefix', asserts(sc))
     build_s = time.time() - t0
-    R.bounds.update({'sizes': sizes.as_dict(), 'jobs_in_update_1': n1, 'job_groups_in_update_1': g1, 'bmc_depth': depth,
-                     'alphabet': alphabet, 'shape': 'group parents, job->group, parents among the two previous jobs, '
-                     'always_run, cores, tokens, times: symbolic'})
+    R.bounds.setdefault('passes', []).append({
+        'sizes': sizes.as_dict(), 'jobs_in_update_1': n1, 'job_groups_in_update_1': g1, 'bmc_depth': depth, 'alphabet': list(alphabet),
+        'named_scenarios': [list(x) for x in extra_seqs], 'update_1_committed_in_prefix': commit})
+    R.bounds['shape'] = ('group parents, job->group, parents among the two previous jobs, always_run, cores, tokens, times, '
+                         'instance states: symbolic')
     # base: the prefix itself (batch creation from the empty database) satisfies the assertions
     r0 = bmc.reachable(sc)
     if r0 != 'sat':
@@ -98,8 +100,8 @@ def run_bmc_property(R, pid, sizes, n1, g1, alphabet, depth, asserts, classify, 
         n_states += len(seq)
         n_trans += len(seq)
         handle(R, pid, sizes, n1, g1, seq, r, vals, which, dt, asserts, classify, commit)
-    R.states = n_states
-    R.transitions = n_trans
+    R.states += n_states
+    R.transitions += n_trans
     R.sample({'layer': 'bmc', 'prefix_build_s': round(build_s, 1), 'sequences': len(full), 'unreachable_sequences': unreachable,
               'example_sequence': list(full[len(full) // 2]) if full else None,
               'named_deep_scenarios': [list(x) for x in extra_seqs]})
